@@ -300,6 +300,31 @@ pub fn run<C: NatCtx>(v: &mut Env<C>) {
         g4.push(g.clone());
         let out = verify_case(v, &s, &g4, &s.pkv, &h.pp, &h.es, &h.eps, &h.label);
         expect_reject(v, &out, true, || format!("generator list one long on {} N={}", tok, nn));
+        // ---- outputs chosen AFTER the per-ciphertext challenges: multiply two outputs by D and D^(-u'_0/u'_1)
+        // (D an arbitrary ciphertext): the weighted product the proof argues about is unchanged, so the
+        // ordinary prover, run again with the same witness and randomness, yields a proof whose every
+        // equation holds IF the u_i did not move, i.e. exactly when they do not bind the outputs
+        if nn >= 2 {
+            let ctx = v.ctx.clone();
+            let sh = Shuffler::new(&s.pk, &s.gens, &ctx);
+            let cs_e: Vec<C::E> = h.pp.cs.iter().map(C::e_raw).collect();
+            let us: Vec<BigUint> = sv::shuffle_us(&sh, &h.es, &h.eps, &cs_e, nn, &h.label).unwrap().iter().map(C::x_val).collect();
+            let (u0, u1) = (us[h.perm[0]].clone(), us[h.perm[1]].clone());
+            if u1 != big(0) && u0 != big(0) {
+                let e = (&q - (&u0 * u1.modpow(&(&q - 2u32), &q)) % &q) % &q; // -u'_0/u'_1 mod q
+                let (d1, d2) = (v.rnd_member(), v.rnd_member());
+                let mul = |c: &Ciphertext<C>, a: &BigUint, b_: &BigUint| Ciphertext::<C> { mhr: C::e_raw(&((C::e_val(&c.mhr) * a) % &p)), gr: C::e_raw(&((C::e_val(&c.gr) * b_) % &p)) };
+                let mut forged = h.eps.clone();
+                forged[0] = mul(&h.eps[0], &d1, &d2);
+                forged[1] = mul(&h.eps[1], &d1.modpow(&e, &p), &d2.modpow(&e, &p));
+                let rps: Vec<C::X> = h.rps.iter().map(|x| v.x(x)).collect();
+                if let Some((_, pp2)) = prove_raw(v, &s, &h.es, &forged, &rps, &h.perm, &h.label, &h.tape) {
+                    let out = verify_case(v, &s, &s.gensv, &s.pkv, &pp2, &h.es, &forged, &h.label);
+                    let real = d1 != big(1) || d2 != big(1);
+                    expect_reject(v, &out, strict && real, || format!("a proof for outputs that are NOT a re-encrypted permutation (two outputs multiplied by D = ({:x},{:x}) and D^(-u0/u1), chosen after the per-ciphertext challenges) on {} N={}", d1, d2, tok, nn));
+                }
+            }
+        }
         // dropped / duplicated / substituted output ciphertext with the honest proof
         if nn >= 2 {
             let mut ep3 = h.eps.clone();
